@@ -126,8 +126,8 @@ def run(c, facts, tier):
     der = facts.derives(tgt)
     manual = [i for _, _, i in facts.impls if norm_ty(i["self_ty"]) == "Target" and i["trait"] and norm_ty(i["trait"]).split("::")[-1] in ("PartialEq", "Eq", "Hash")]
     c.ob("C10.key", "Target", "equality and hash cover every field (derived)", all(d in der for d in ("PartialEq", "Eq", "Hash")) and not manual, "derives %s; hand-written impls: %d" % (der, len(manual)))
-    fields_ok = all(any("Option<char>" == norm_ty(f["ty"]) for f in v["fields"]) for v in tgt["variants"]) and any(any(norm_ty(f["ty"]) == "String" for f in v["fields"]) for v in tgt["variants"])
-    c.ob("C10.key", "Target", "a target records destination and terminator", fields_ok, "variants: %s" % [(v["name"], [norm_ty(f["ty"]) for f in v["fields"]]) for v in tgt["variants"]])
+    fields_ok = all(any("Option<char>" == facts.unalias(f["ty"]) for f in v["fields"]) for v in tgt["variants"]) and any(any(facts.unalias(f["ty"]) == "String" for f in v["fields"]) for v in tgt["variants"])
+    c.ob("C10.key", "Target", "a target records destination and terminator", fields_ok, "variants: %s" % [(v["name"], [facts.unalias(f["ty"]) for f in v["fields"]]) for v in tgt["variants"]])
     op = facts.struct("OpenPort")
     c.ob("C10.key", "OpenPort", "port records are compared by value (derived)", all(d in facts.derives(op) for d in ("PartialEq", "Eq", "Hash")), "derives %s" % facts.derives(op), nontrivial=False)
     for M in (framed, plain):
